@@ -270,6 +270,21 @@ nd::harnesses! {
     #[kani::unwind(6)] fn c12_sliceref_u8_4() { sliceref_rt::<u8, 4>() }
     #[kani::unwind(6)] fn c12_sliceref_u64_4() { sliceref_rt::<u64, 4>() }
     #[kani::unwind(6)] fn c12_sliceref_zst_4() { sliceref_rt::<Zst, 4>() }
+
+    /// A slice of zero-sized elements may have ANY length up to usize::MAX: shared and mutable view keep it.
+    fn c12_zst_slices_of_any_length() {
+        let n: usize = nd::any();
+        nd::cover!(n > isize::MAX as usize, "longer than isize::MAX");
+        let p = core::ptr::NonNull::<Zst>::dangling().as_ptr();
+        let s: &[Zst] = unsafe { core::slice::from_raw_parts(p as *const Zst, n) };
+        let cs = CSliceRef::from(s);
+        assert!(cs.len() == n && cs.as_slice().len() == n && CSliceRef::from_slice(s).len() == n);
+        let back: &[Zst] = cs.into();
+        assert!(back.len() == n);
+        let m: &mut [Zst] = unsafe { core::slice::from_raw_parts_mut(p, n) };
+        let cm = CSliceMut::from(m);
+        assert!(cm.len() == n && cm.as_slice().len() == n);
+    }
     #[kani::unwind(6)] fn c12_sliceref_t3_4() { sliceref_rt::<T3, 4>() }
     #[kani::unwind(16)] fn c12_slices_t3_any_address() { slices_at_any_address() }
     #[kani::unwind(8)] fn c12_sliceref_u8_6() { sliceref_rt::<u8, 6>() }
